@@ -83,8 +83,8 @@ pub fn gen_args(r: &mut Rng, op: i64) -> Vec<f64> {
         508 => vec![pos(r), pos(r), fl01(r), 3.0 + r.below(60) as f64],
         509 => { let od1 = pos(r) + 1.0; let od2 = pos(r) + 1.0; vec![od1, od2, od1.min(od2) * r.uniform(0.01, 0.49), pos(r), fl01(r), 3.0 + r.below(60) as f64] }
         510 => vec![pos(r), pos(r), pos(r), fl01(r), 3.0 + r.below(60) as f64],
-        511 => { let od = pos(r) + 1.0; vec![od, od * r.uniform(0.01, 0.49), *r.pick(&[1.0, 45.0, 90.0, 180.0, 359.0, 360.0]), *r.pick(&[0.0, 0.005, 1.0, 30.0, 250.0]), 3.0 + r.below(60) as f64] }
-        512 => vec![pos(r) + 1.0, *r.pick(&[1.0, 45.0, 90.0, 180.0, 359.0, 360.0]), *r.pick(&[0.0, 0.005, 1.0, 30.0, 250.0]), 3.0 + r.below(60) as f64],
+        511 => { let od = pos(r) + 1.0; vec![od, od * r.uniform(0.01, 0.49), *r.pick(&[1.0, 45.0, 90.0, 180.0, 359.0, 360.0, 360.0, 0.5, 0.0, -10.0, 360.5, 450.0]), *r.pick(&[0.0, 0.005, 1.0, 30.0, 250.0]), 3.0 + r.below(60) as f64] }
+        512 => vec![pos(r) + 1.0, *r.pick(&[1.0, 45.0, 90.0, 180.0, 359.0, 360.0, 360.0, 0.5, 0.0, -10.0, 360.5, 450.0]), *r.pick(&[0.0, 0.005, 1.0, 30.0, 250.0]), 3.0 + r.below(60) as f64],
         _ => { let pitch = *r.pick(&[0.4, 0.5, 0.8, 1.0, 1.25, 1.5, 2.0, 3.0, 6.0]); let d_maj = pitch * r.uniform(4.0, 12.0);
                let d_min = d_maj - 2.0 * 5.0 / 8.0 * (3.0f64.sqrt() / 2.0 * pitch);
                vec![d_min, d_maj, pitch, pitch * r.uniform(2.5, 8.0), segs(r), lead(r), lead(r), fl01(r), fl01(r)] }
